@@ -1,6 +1,8 @@
 #!/bin/bash
-# runs every thorough tier once (used through `vp run`); prints one line per check
-for c in C01 C02 C03 C04 C06 C07 C08 C09 C10 C11 C12 C13 C14 C15 C16 C17 C18 C19 C20 C05; do
+# runs every thorough tier once, or those named as arguments (used through `vp run`); prints one line per check
+list="$*"
+[ -z "$list" ] && list="C01 C02 C03 C04 C06 C07 C08 C09 C10 C11 C12 C13 C14 C15 C16 C17 C18 C19 C20 C05"
+for c in $list; do
   s=$(date +%s)
   out=$(./vrun $c thorough 2>&1); rc=$?
   e=$(( $(date +%s) - s ))
